@@ -130,39 +130,58 @@ func Load(dir, goarch, modPath string, minPkgs int) (*Ctx, error) {
 	// anchor. A helper introduced later is folded back into the functions the rules look at.
 	c.resolveAnchors()
 	if !NoInline {
-		res := ssa.InlineCalls(c.ModFuncs, ssa.InlineOptions{Callee: func(g *ssa.Function) bool {
-			if g.Object() == nil || g.Object().Exported() || !c.InModule(g) {
+		inlineOpts := ssa.InlineOptions{Callee: func(g *ssa.Function) bool {
+			if !c.InModule(g) {
+				return false
+			}
+			if g.Parent() != nil {
+				// a function literal: a local closure called by the function that makes it, or a constructor
+				// kept in a table; its enclosing function decides
+				return true
+			}
+			if g.Object() == nil || g.Object().Exported() {
 				return false
 			}
 			return !c.isAnchorFn(g) && !strings.HasPrefix(g.Name(), "toString_") && !strings.HasPrefix(g.Name(), "init")
-		}})
-		c.Inlined = res.Inlined
-		c.dropDeadHelpers()
-		// second normalisation: loops with a compile-time constant trip count are unrolled and local tables
-		// (composite literals accessed by constant indices) dissolved, see xt/ssa/unroll.go. Nothing on the
-		// tree the rules were written for qualifies.
+		}}
 		// constant package-level tables (a composite literal of constants assigned once by the package
 		// initializer, never written and never handed out): reads of their cells and lengths become constants
 		// before the loops over them are looked at, see xt/ssa/consttab.go
-		ct := ssa.AnalyzeConstGlobals(c.ModFuncs)
-		c.Unrolled = append(c.Unrolled, ct.Rewrite(c.ModFuncs, false)...)
-		c.Unrolled = append(c.Unrolled, ssa.NormalizeLoops(c.ModFuncs, ssa.UnrollOptions{DataOnly: true})...)
-		c.ConstTables = ct.Notes
-		// third normalisation: a merge that selects among integer constants which then serve as slice bounds
-		// (switch kind { case A: n = 4; case B: n = 16 } ... b[8:8+n]) is duplicated per incoming edge, see
-		// xt/ssa/split.go. Nothing on the tree the rules were written for qualifies.
-		// (the two feed each other: a split turns the index of a table read into a constant, a table read that
-		// became a φ of constants is the next merge to split)
-		ssa.CanonCompares(c.ModFuncs)
-		for round := 0; round < 3; round++ {
-			n1 := ct.Rewrite(c.ModFuncs, true)
-			n2 := ssa.SplitConstMerges(c.ModFuncs)
-			c.Unrolled = append(append(c.Unrolled, n1...), n2...)
-			if len(n1)+len(n2) == 0 {
+		ssa.LowerAppendUint(c.ModFuncs) // binary.BigEndian.AppendUintN(b, v) = append(b, byte(v>>8), ..., byte(v))
+		var ct *ssa.ConstTables
+		for pass := 0; pass < 3; pass++ {
+			res := ssa.InlineCalls(c.ModFuncs, inlineOpts)
+			if pass > 0 && len(res.Inlined) == 0 {
 				break
 			}
+			c.Inlined = append(c.Inlined, res.Inlined...)
+			c.dropDeadHelpers()
+			if ct == nil {
+				ct = ssa.AnalyzeConstGlobals(c.ModFuncs)
+				c.ConstTables = ct.Notes
+			}
+			c.Unrolled = append(c.Unrolled, ct.Rewrite(c.ModFuncs, false)...)
+			// second normalisation: loops with a compile-time constant trip count are unrolled and local tables
+			// (composite literals accessed by constant indices) dissolved, see xt/ssa/unroll.go. Nothing on the
+			// tree the rules were written for qualifies.
+			c.Unrolled = append(c.Unrolled, ssa.NormalizeLoops(c.ModFuncs, ssa.UnrollOptions{DataOnly: true})...)
+			// third normalisation: a merge that selects among integer constants which then serve as slice bounds
+			// (switch kind { case A: n = 4; case B: n = 16 } ... b[8:8+n]) is duplicated per incoming edge, see
+			// xt/ssa/split.go. Nothing on the tree the rules were written for qualifies.
+			// (the two feed each other: a split turns the index of a table read into a constant, a table read that
+			// became a φ of constants is the next merge to split)
+			ssa.CanonCompares(c.ModFuncs)
+			for round := 0; round < 3; round++ {
+				n1 := ct.Rewrite(c.ModFuncs, true)
+				n2 := ssa.SplitConstMerges(c.ModFuncs)
+				c.Unrolled = append(append(c.Unrolled, n1...), n2...)
+				if len(n1)+len(n2) == 0 {
+					break
+				}
+			}
+			ssa.CanonCompares(c.ModFuncs)
+			// a call through a table entry or a local function value may have become a direct call by now: once more
 		}
-		ssa.CanonCompares(c.ModFuncs)
 	}
 	return c, nil
 }
